@@ -36,6 +36,9 @@ fixed("C06", "C06.conform", OP, "Operator._apply_universal_effects", "type-equal
 fixed("C06", "C06.conform", GP, "GroundedPrecondition._validate_universal_precondition", "type-equality", "3b5ddc6",
       "forall preconditions compared type names for equality (latent: dead code today)", "fixes/demos.py F6")
 fixed("C03", "C03.range", OP, "Operator._apply_universal_effects", "type-equality", "3b5ddc6", "same defect seen from C03", "fixes/demos.py F6")
+fixed("C05", "C05.validators", "lisp_parsers.problem_parser", "ProblemParser.parse_grounded_numeric_fluent", "types-by-name", "d00fd18",
+      "argument types of a grounded fluent were read back from a dict keyed by the argument names: with a repeated argument the positions "
+      "shifted and (= (tri2 s s m) 3) was rejected although well typed (found by the rule added after the second seeding round)", "fixes/demos.py F23")
 fixed("C12", "C12.env", "models.numeric_symbolic_operations", "<module>", "env:NUMERIC_PRECISION", "bab0161",
       "NUMERIC_PRECISION used unconverted: round(x, '3') raises TypeError", "fixes/demos.py F9")
 fixed("C06", "C06.closure", "lisp_parsers.domain_parser", "DomainParser.parse_types", "unregistered-type", "baa94e5",
